@@ -16,6 +16,9 @@ THEOREMS = {
         "MG.C01.collect_consumers_first",
         "MG.C01.backward_sound",
         "MG.C01.backward_order_independent",
+        "MG.C01.dag_programs_acyclic",
+        "MG.C01.backward_sound_for_programs",
+        "MG.Eng.acyclic_opStep",
         "MG.Adj.run_isAdj",
         "MG.Adj.isAdj_unique_rank",
         "MG.Adj.isAdj_perm",
